@@ -296,6 +296,24 @@ Theorem C11_next_from_range_stop :
     run U step e fuel (enter (BPat i true) u) s = ROk ONext u1 s1 ->
     exec_rules U step enter e fuel (r :: rules) i done (true :: fl) u s = LCont u1 s1 (rev (true :: done) ++ fl).
 Proof. exact exec_rules_range_stop_next. Qed.
+(* nextfile at the two range sites (first pattern of a closed range, second pattern of an open range):
+   the record is abandoned AND the rest of the current file is dropped ([drop_file], so that by
+   C11_nextfile_plan the next record comes from the next operand); the flag keeps its value *)
+Theorem C11_nextfile_from_range_start :
+  forall (U : Type) (step : U -> st -> req * U) (enter : blk -> U -> U) (e : env)
+         fuel r rules i done fl u s u1 s1,
+    rk r = PRange ->
+    run U step e fuel (enter (BPat i false) u) s = ROk ONextfile u1 s1 ->
+    exec_rules U step enter e fuel (r :: rules) i done (false :: fl) u s = LCont u1 (drop_file s1) (rev (false :: done) ++ fl).
+Proof. exact exec_rules_range_start_nextfile. Qed.
+Theorem C11_nextfile_from_range_stop :
+  forall (U : Type) (step : U -> st -> req * U) (enter : blk -> U -> U) (e : env)
+         fuel r rules i done fl u s u1 s1,
+    rk r = PRange ->
+    run U step e fuel (enter (BPat i true) u) s = ROk ONextfile u1 s1 ->
+    exec_rules U step enter e fuel (r :: rules) i done (true :: fl) u s = LCont u1 (drop_file s1) (rev (true :: done) ++ fl).
+Proof. exact exec_rules_range_stop_nextfile. Qed.
+Print Assumptions C11_nextfile_from_range_stop.
 Print Assumptions C11_next_anywhere.
 Print Assumptions C11_nextfile_anywhere.
 
